@@ -342,22 +342,22 @@ Definition w0 c := LW 0 c.
 Definition w1 c := LW 1 c.
 Definition sched_common : list plabel :=
   [LSpawn; LRunCall; LM; LM;
-   w0 CNone; w0 CNone; w0 (CPop 1); w0 CNone; w0 CNone;
-   w0 CWake; w0 CWake; w0 CPushLocal; w0 CNext; w0 (CActivate 1); w0 CNone; w0 CNone; w0 (CCnt 1); w0 CDone;
-   w1 CNone; w1 CNone; w1 (CSteal 0 1); w1 CNone; w1 (CCnt (-1)); w1 CDone; w1 CNone; w1 CGiveUp;
-   w0 CNone; w0 CDone; w0 CNone; w0 CGiveUp;
+   w0 PNone; w0 PNone; w0 (PPop 1); w0 PNone; w0 PNone;
+   w0 PWake; w0 PWake; w0 PPushLocal; w0 PNext; w0 (PActivate 1); w0 PNone; w0 PNone; w0 (PCnt 1); w0 PDone;
+   w1 PNone; w1 PNone; w1 (PSteal 0 1); w1 PNone; w1 (PCnt (-1)); w1 PDone; w1 PNone; w1 PGiveUp;
+   w0 PNone; w0 PDone; w0 PNone; w0 PGiveUp;
    LM].
 (* worker 0 clears its bit; worker 1, now the last one, declares the pool idle and folds its count;
    the main thread wakes up and reads the count before worker 0 has folded its own *)
 Definition sched_pinned : list plabel :=
   sched_common ++
-  [w0 CNone; w0 CNone;
-   w1 CNone; w1 CNone; w1 CNone; w1 CNone; w1 CNone; w1 CNone;
+  [w0 PNone; w0 PNone;
+   w1 PNone; w1 PNone; w1 PNone; w1 PNone; w1 PNone; w1 PNone;
    LM; LM].
 Definition sched_fixed : list plabel :=
   sched_common ++
-  [w0 CNone; w0 CNone; w0 CNone;
-   w1 CNone; w1 CNone; w1 CNone; w1 CNone; w1 CNone; w1 CNone;
+  [w0 PNone; w0 PNone; w0 PNone;
+   w1 PNone; w1 PNone; w1 PNone; w1 PNone; w1 PNone; w1 PNone;
    LM; LM].
 
 Lemma pool_pinned_refuted :
